@@ -111,6 +111,36 @@ def build(dendropy, am, route, src, evs, model_layout=True):
         raise core.MachineryError("construction route %s failed on %s: %r" % (route, core.dumps(am)[:300], ex))
     if route.startswith("parsed_"):
         return parse_source(dendropy, am, route[len("parsed_"):], src, evs, model_layout)
+    if route in ("typed_self_concatenated", "typed_self_extended", "typed_aba"):
+        # parsed from NeXML (typed cells), then combined with itself / with a repeated operand
+        if route == "typed_aba":
+            n = max(len(r) for r in am["rows"])
+            k = max(1, n // 2)
+            parts = [{"type": t, "taxa": am["taxa"], "rows": [r[:k] for r in am["rows"]]}]
+            if n > k:
+                parts.append({"type": t, "taxa": am["taxa"], "rows": [r[k:] for r in am["rows"]]})
+            ns = None
+            ms = []
+            for part in parts:
+                text = X.render("nexml", X.py_write("nexml", part, src))
+                kw = {"taxon_namespace": ns} if ns is not None else {}
+                try:
+                    mm = X.matrix_class(dendropy, t).get(data=text, schema="nexml", **kw)
+                except Exception as ex:
+                    raise core.MachineryError("construction route %s failed: %r" % (route, ex))
+                ns = mm.taxon_namespace
+                ms.append(mm)
+            try:
+                return X.matrix_class(dendropy, t).concatenate(ms + [ms[0]])
+            except Exception as ex:
+                raise core.MachineryError("construction route %s failed: %r" % (route, ex))
+        M = parse_source(dendropy, am, "nexml", src, evs, model_layout)
+        if M is None:
+            return None
+        try:
+            return X.build_self_combined(dendropy, M, route)
+        except Exception as ex:
+            raise core.MachineryError("construction route %s failed on %s: %r" % (route, core.dumps(am)[:300], ex))
     raise core.MachineryError("unknown route %s" % route)
 
 
@@ -256,11 +286,25 @@ def build_dataset(dendropy, spec, rng):
             # several matrices of one data set: all of the same type for half of the cases, mixed otherwise
             tt = ["dna", "standard", "protein", "continuous", "rna"]
             t = c.get("type") or (tt[spec.get("variant", 0) % 5] if spec.get("variant", 0) % 2 == 0 else tt[(spec.get("variant", 0) + k) % 5])
+            if c.get("subsets") and t in ("standard", "continuous"):
+                t = "dna"          # a concatenated alignment (concatenation of standard matrices is a separate open finding)
+            if c.get("neg"):
+                t = "continuous"
             syms = X.full_symbols(t) if t != "continuous" else ["1/2", "-5/4", "3/1", "1/100000"]
             ncol = c.get("ncol", 3)
             am = {"type": t, "taxa": [X.chars(x.label) for x in ns],
                   "rows": [[syms[rng.randrange(len(syms))] for _ in range(ncol)] for _ in ns]}
-            m = X.build_from_dict(dendropy, am, ns=ns)
+            if c.get("neg"):     # tokens with '-': a negative value and a negative exponent
+                am["rows"][0][0] = "-5/4"
+                am["rows"][-1][-1] = "1/100000"
+            if c.get("subsets"):
+                cls = X.matrix_class(dendropy, t)
+                kk = max(1, ncol // 2)
+                halves = [(0, kk), (kk, ncol)] if ncol > kk else [(0, ncol)]
+                m = cls.concatenate([X.build_from_dict(dendropy, {"type": t, "taxa": am["taxa"], "rows": [r[a:b] for r in am["rows"]]}, ns=ns)
+                                     for a, b in halves])
+            else:
+                m = X.build_from_dict(dendropy, am, ns=ns)
             m.label = title
             ds.add_char_matrix(m)
         else:
@@ -474,6 +518,11 @@ def _random_matrix(dendropy, case, rng, tmpdir, evs):
                 route, src = "from_dict", {}
     if route == "exported_typed" and t not in X.SUPPORTS["nexml"]:
         route = "exported"
+    if route.startswith("typed_"):
+        if t not in X.SUPPORTS["nexml"]:
+            route = "concatenated"
+        else:
+            src = {"seqs": rng.random() < 0.3}
     M = build(dendropy, am, route, src, evs, model_layout=False)
     if M is None:
         return
@@ -529,7 +578,14 @@ def _random_dataset(dendropy, case, rng, evs):
     for _ in range(rng.randint(1, 4)):
         comps.append({"kind": rng.choice(["CHARACTERS", "TREES"]), "ns": rng.randint(1, nns),
                       "title": X.chars(rng.choice(TITLE_POOL[:6])), "type": rng.choice(["dna", "dna", "protein", "standard", "continuous", "rna"]),
-                      "ncol": rng.randint(1, 6), "ntrees": rng.randint(1, 3)})
+                      "ncol": rng.randint(1, 6), "ntrees": rng.randint(1, 3), "subsets": rng.random() < 0.3})
+    if case.get("subsets_first"):
+        # a concatenated alignment first, continuous data with negative values / exponents later
+        comps.insert(0, {"kind": "CHARACTERS", "ns": rng.randint(1, nns), "title": X.chars(""), "type": rng.choice(["dna", "protein", "rna"]),
+                         "ncol": rng.randint(2, 6), "subsets": True})
+        comps.append({"kind": "CHARACTERS", "ns": rng.randint(1, nns), "title": X.chars(""), "ncol": rng.randint(1, 4), "neg": True})
+        for c in comps[1:-1]:
+            c["subsets"] = False
     ds = build_dataset(dendropy, {"nss": nss, "comps": comps}, rng)
     fmt = rng.choice(["nexus", "nexus", "nexml"])
     setting = rng.choice(["None", "False", "True"]) if fmt == "nexus" else "None"
@@ -568,7 +624,8 @@ def model_cases(ctx, cfg):
             ds = c["ds"]
             dcases.append({"kind": "model_dataset", "f": c["f"], "setting": c["setting"],
                            "ds": {"nss": [{"title": list(n["title"]), "labels": [list(l) for l in n["labels"]]} for n in ds["nss"]],
-                                  "comps": [{"kind": k["kind"], "ns": k["ns"], "title": list(k["title"])} for k in ds["comps"]]}})
+                                  "comps": [{"kind": k["kind"], "ns": k["ns"], "title": list(k["title"]), "subsets": bool(k["subsets"]),
+                                             "neg": bool(k["neg"])} for k in ds["comps"]]}})
     mcases = []
     for i, key in enumerate(sorted(order)):
         g = groups[key]
@@ -608,7 +665,8 @@ def add_pairs_and_converts(mcases, quick):
 
 def random_cases(ctx, n_mat, n_ds):
     rng = random.Random(ctx.seed * 7919 + 9)
-    routes = ["from_dict", "concatenated", "exported", "exported_typed", "parsed_nexus", "parsed_phylip", "parsed_fasta", "parsed_nexml"]
+    routes = ["from_dict", "concatenated", "exported", "exported_typed", "parsed_nexus", "parsed_phylip", "parsed_fasta", "parsed_nexml",
+              "typed_self_concatenated", "typed_self_extended", "typed_aba"]
     styles = ["plain", "plain", "long", "space", "punct", "xml"]
     out = []
     for i in range(n_mat):
@@ -623,7 +681,8 @@ def random_cases(ctx, n_mat, n_ds):
             c["nc"] = 1
         out.append(c)
     for i in range(n_ds):
-        out.append({"kind": "random_dataset", "seed": ctx.seed * 1000003 + 900000 + i, "allow_case_variants": i % 4 == 0})
+        out.append({"kind": "random_dataset", "seed": ctx.seed * 1000003 + 900000 + i, "allow_case_variants": i % 4 == 0,
+                    "subsets_first": i % 3 == 1})
     return out
 
 
@@ -670,6 +729,8 @@ def run(ctx):
     ctx.model("MC_CharIO", "AsShipped_CharIO.cfg", expect_violation="RoundTrip", count=False, workers=4)
     ctx.model("MC_CharIO", "AsShipped_CharIO_titles.cfg", expect_violation="NamespaceOfEachComponent", count=False, workers=4)
     ctx.model("MC_CharIO", "AsShipped_CharIO_titlecase.cfg", expect_violation="NamespaceOfEachComponent", count=False, workers=4)
+    ctx.model("MC_CharIO", "AsShipped_CharIO_setslink.cfg", expect_violation="NamespaceOfEachComponent", count=False, workers=4)
+    ctx.model("MC_CharIO", "Regress_CharIO_hyphen.cfg", expect_violation="NamespaceOfEachComponent", count=False, workers=4)
     # 2. spec -> code: every dumped case replayed on the real classes
     mcases, dcases, nstates = model_cases(ctx, "MC_CharIO_quick.cfg" if q else "MC_CharIO_thorough.cfg")
     add_pairs_and_converts(mcases, q)
